@@ -328,6 +328,78 @@ fn op_stream<M: GuestMemory>(h: &mut H, mem: &M, a: u64, count: usize, which: u6
     }
 }
 
+/// `try_access` called directly: the chunks handed to the callback walk the run in order - chunk k
+/// starts at guest address a + (bytes handled so far), lies inside one region, is as long as that
+/// region and the remaining count allow - also when the callback makes only partial progress.
+fn op_try_access<M: GuestMemory>(h: &mut H, mem: &M, a: u64, count: usize, r: &mut Rng) {
+    if count == 0 {
+        return;
+    }
+    let run = h.flat.lay.run(a as u128);
+    let partial = r.chance(1, 2);
+    let stop_after = if r.chance(1, 4) { Some(r.usize_below(4)) } else { None };
+    h.trace.push(format!("try_access(addr {:#x}, count {}, partial {}, stop_after {:?})", a, count, partial, stop_after));
+    let mut chunks: Vec<(usize, usize, u64, u64)> = vec![]; // offset, len, region start, caddr
+    let mut seed = r.next();
+    let mut calls = 0usize;
+    let res = mem.try_access(count, GuestAddress(a), |off, len, caddr, reg| {
+        chunks.push((off, len, reg.start_addr().0, caddr.0));
+        calls += 1;
+        if stop_after == Some(calls - 1) {
+            return Ok(0);
+        }
+        seed = seed.wrapping_mul(6364136223846793005).wrapping_add(1442695040888963407);
+        Ok(if partial && len > 1 { 1 + (seed >> 33) as usize % len } else { len })
+    });
+    // replay the model
+    let limit = (count as u128).min(run) as usize;
+    let mut total = 0usize;
+    let mut seed2 = 0u64;
+    let _ = seed2;
+    for (k, (off, len, rstart, caddr)) in chunks.iter().enumerate() {
+        let g = a as u128 + total as u128;
+        let reg = h.flat.lay.region_of(g);
+        let want_len = reg.map(|i| {
+            let (s, l) = h.flat.lay.regions[i];
+            ((s + l - g).min((count - total) as u128)) as usize
+        });
+        let ok = *off == total && reg.is_some() && Some(*len) == want_len && reg.map_or(false, |i| h.flat.lay.regions[i].0 == *rstart as u128) && *rstart as u128 + *caddr as u128 == g;
+        if !ok {
+            h.fail("try_access/chunk", jobj! {"addr" => a, "count" => count, "chunk_index" => k, "chunk" => J::dbg(&(off, len, rstart, caddr)), "handled_so_far" => total, "want_len" => J::dbg(&want_len)});
+            return;
+        }
+        // how far did the callback go? reconstruct from the next chunk's offset / the result
+        let next_off = chunks.get(k + 1).map(|c| c.0);
+        let progressed = match next_off {
+            Some(n) if n >= total && n - total <= *len => n - total,
+            Some(_) => {
+                h.fail("try_access/offset-sequence", jobj! {"addr" => a, "count" => count, "chunks" => J::dbg(&chunks)});
+                return;
+            }
+            None => match &res {
+                Ok(t) if *t >= total && *t - total <= *len => *t - total,
+                _ => 0,
+            },
+        };
+        total += progressed;
+    }
+    match &res {
+        Ok(t) => {
+            if *t != total || *t > limit || (stop_after.is_none() && !partial && *t != limit) || *t == 0 && run > 0 && stop_after != Some(0) {
+                h.fail("try_access/result", jobj! {"addr" => a, "count" => count, "got" => *t, "limit" => limit, "chunks" => J::dbg(&chunks)});
+                return;
+            }
+        }
+        Err(GErr::InvalidGuestAddress(x)) if run == 0 && x.0 == a && chunks.is_empty() => {}
+        Err(e) => {
+            h.fail("try_access/result", jobj! {"addr" => a, "count" => count, "got" => gerr(e), "run" => run.min(u64::MAX as u128) as u64, "chunks" => J::dbg(&chunks)});
+            return;
+        }
+    }
+    out::key(&format!("try_access|{}|chunks{}|{}|{}|{}", if partial { "partial-progress" } else { "full-progress" }, chunks.len().min(4), h.start_class(a), len_rel(count, run), h.backend), true);
+    h.frame("try_access");
+}
+
 /// region-level byte access (Bytes<MemoryRegionAddress>)
 fn op_region<M: GuestMemory>(h: &mut H, mem: &M, r: &mut Rng) {
     let i = r.usize_below(h.flat.lay.regions.len());
@@ -466,9 +538,13 @@ fn history<M: GuestMemory>(mem: &M, h: &mut H, r: &mut Rng, nops: u64) {
                     _ => op_atomic::<u64, M>(h, mem, a, st, r, "u64"),
                 }
             }
-            62..=89 => {
+            62..=85 => {
                 let len = pick_len(h, a, r);
                 op_stream(h, mem, a, len, r.below(4), r);
+            }
+            86..=89 => {
+                let len = pick_len(h, a, r);
+                op_try_access(h, mem, a, len, r);
             }
             _ => op_region(h, mem, r),
         }
